@@ -165,3 +165,74 @@ func VerifC12_ScratchReset() {
 	symx.Check(st.GetRefund() == 0, "refund counter does not leak into the next transaction")
 	symx.Reach("end")
 }
+
+// Inner frames of every kind: contract A, which itself ends successfully, enters B's code through
+// CALL / CALLCODE / DELEGATECALL; that code performs one mutator (on B's state for CALL, on A's own
+// state for the other two kinds) and ends in REVERT / INVALID / a bad jump / STOP. A swallows the
+// result. Unless the inner frame ended with STOP, nothing it did is observable afterwards.
+func VerifC12_InnerFrameKinds() {
+	kind := symx.Choice("kind", 3)
+	mut := symx.Choice("mut", 3)
+	end := symx.Choice("end", 4)
+	var inner []byte
+	switch mut {
+	case 0:
+		inner = c12Push(inner, 9, 1)
+		inner = append(inner, byte(SSTORE))
+	case 1:
+		inner = c12Push(inner, 5, 0, 0)
+		inner = append(inner, byte(LOG1))
+	case 2:
+		inner = c12Push(inner, 9, 1)
+		inner = append(inner, byte(TSTORE))
+	}
+	switch end {
+	case 0:
+		inner = c12Push(inner, 0, 0)
+		inner = append(inner, byte(REVERT))
+	case 1:
+		inner = append(inner, byte(INVALID))
+	case 2:
+		inner = c12Push(inner, 3)
+		inner = append(inner, byte(JUMP))
+	case 3:
+		inner = append(inner, byte(STOP))
+	}
+	var code []byte
+	switch kind {
+	case 0:
+		code = c12Push(code, 0, 0, 0, 0, 0, 0xb2)
+		code = append(code, byte(PUSH3), 0x0f, 0xff, 0xff, byte(CALL), byte(POP), byte(STOP))
+	case 1:
+		code = c12Push(code, 0, 0, 0, 0, 0, 0xb2)
+		code = append(code, byte(PUSH3), 0x0f, 0xff, 0xff, byte(CALLCODE), byte(POP), byte(STOP))
+	case 2:
+		code = c12Push(code, 0, 0, 0, 0, 0xb2)
+		code = append(code, byte(PUSH3), 0x0f, 0xff, 0xff, byte(DELEGATECALL), byte(POP), byte(STOP))
+	}
+	st, evm, thash := c12Setup(code)
+	st.SetCode(c12B, inner)
+	st.SetBalance(c12B, big.NewInt(50))
+	st.IntermediateRoot(false)
+	before := c12Observe(st, thash)
+	slotB, tslotB := st.GetState(c12B, c12Key), st.GetTransientState(c12B, c12Key)
+	_, _, _, err := evm.Call(AccountRef(c12Orig), c12A, nil, 1_000_000, new(big.Int))
+	symx.Check(err == nil, "the outer frame swallows the inner result and ends successfully")
+	after := c12Observe(st, thash)
+	if end != 3 {
+		c12Same(before, after, "failed inner frame")
+		symx.Check(st.GetState(c12B, c12Key) == slotB, "failed inner frame: storage of the callee unchanged")
+		symx.Check(st.GetTransientState(c12B, c12Key) == tslotB, "failed inner frame: transient storage of the callee unchanged")
+		st2, _, _ := c12Setup(code)
+		st2.SetCode(c12B, inner)
+		st2.SetBalance(c12B, big.NewInt(50))
+		symx.Check(st.IntermediateRoot(true) == st2.IntermediateRoot(true), "failed inner frame: state root unchanged")
+	} else {
+		// vacuity guard: a successful inner frame does leave its trace
+		changed := after.slot != before.slot || after.tslot != before.tslot || after.nlogs != before.nlogs ||
+			st.GetState(c12B, c12Key) != slotB || st.GetTransientState(c12B, c12Key) != tslotB
+		symx.Check(changed, "a successful inner frame is observable (the harness reaches the mutator)")
+		symx.Reach("success")
+	}
+	symx.Reach("end")
+}
